@@ -322,9 +322,14 @@ type fnFunc struct {
 	results   []*fnType
 	needZero  bool
 	zeroType  string
-	zeroTypes []string    // the type parameters whose zero value is an argument (zero_T), in signature order
-	recvObj   *ast.Object // a function literal translated as a method of the pointer it captures: that variable
-	litOf     string      // ... and the function it sits in
+	zeroTypes []string        // the type parameters whose zero value is an argument (zero_T), in signature order
+	recvObj   *ast.Object     // a function literal translated as a method of the pointer it captures: that variable
+	recvType  string          // the struct whose methods can be called on the receiver (methods, literals, constructors)
+	ctor      *ctorInfo       // a constructor: q := &T{...} ... return q
+	retRecv   bool            // the Go result is the receiver itself: not a result of the translation
+	fatFields map[string]bool // slice fields with a tracked capacity (companion argument <field>_spare)
+	reshapes  map[string]bool // fields assigned as a whole (re-sliced, appended to, replaced), here or in a callee
+	litOf     string          // ... and the function it sits in
 	pure      bool
 	fuel      bool
 	extras    []*fnExtra // oracle / external function arguments, in order
@@ -629,8 +634,12 @@ func fnGenerate(f *ast.File, specs []string) (string, []string) {
 			fn.decl = findFunc(f, sp)
 		}
 		if fn.decl != nil && fn.recvVar == "" {
-			fn.recvVar, _, _ = recvInfo(fn.decl)
+			fn.recvVar, fn.recvType, _ = recvInfo(fn.decl)
 		}
+		if ci := g.constructorOf(fn.decl); ci != nil {
+			fn.ctor, fn.recvVar, fn.recvObj, fn.recvType = ci, ci.v, ci.obj, ci.tname
+		}
+		fn.fatFields, fn.reshapes = map[string]bool{}, map[string]bool{}
 		g.order = append(g.order, fn)
 		g.funcs[sp] = fn
 		if _, dup := g.byCall[fn.name]; dup {
@@ -638,7 +647,10 @@ func fnGenerate(f *ast.File, specs []string) (string, []string) {
 			fn.lostMsg = "duplicate name " + fn.name
 			continue
 		}
-		g.byCall[fn.name] = fn
+		g.byCall[fn.name] = fn // by the Go name
+		if fnReserved[fn.name] {
+			fn.name += "_" // Set, Type, ...: not usable as a Coq name
+		}
 		if fn.decl == nil || fn.decl.Body == nil {
 			fn.state = 3
 			fn.lostMsg = "function not found"
@@ -726,7 +738,7 @@ func (g *fnGen) calleeOf(fn *fnFunc, call *ast.CallExpr) *fnFunc {
 		}
 	case *ast.SelectorExpr:
 		if id, ok := f.X.(*ast.Ident); ok && fn.recvVar != "" && id.Name == fn.recvVar {
-			if cal, ok := g.byCall[f.Sel.Name]; ok && cal.recv == fn.recv {
+			if cal, ok := g.byCall[f.Sel.Name]; ok && cal.recv != "" && cal.recv == fn.recvType {
 				return cal
 			}
 		}
